@@ -739,3 +739,154 @@ pub fn interleave(pools: &[&[char]], total: usize) -> Vec<char> {
     }
     v
 }
+
+/// inputs of 16 MiB (index 0..4; quick tier) and beyond 64 and 128 MiB (index 4..12; thorough tier only: the library needs ~10 s per
+/// pass over 64 MiB): a fixed point of the profile, the same with something to repair at the very end, and with something to repair at
+/// the very start; `words`: made of space-separated words (nicknames, opaque strings) or not
+pub fn huge_input(words: bool, index: usize) -> Option<String> {
+    let sizes = [1usize << 24, 1 << 26, 1 << 27];
+    let (size, shape) = (sizes.get(index / 4)?, index % 4);
+    let unit = if words { "Foo Bar " } else { "foobar78" };
+    let mut s = unit.repeat(size / 8);
+    s.push_str(if words { "Foo Bar" } else { "foobar7" });
+    match shape {
+        0 => {}
+        1 => s.push_str(if words { "  " } else { "\u{ff21}" }),
+        2 => s.insert_str(0, if words { "\u{a0}e\u{301}" } else { "\u{ff42}e\u{301}" }),
+        _ => s.push_str("e\u{301}"),
+    }
+    Some(s)
+}
+
+/// the huge inputs through `check`, one after the other on one thread
+pub fn huge_section(run: &Run, words: bool, profs: &[Prof], check: &(dyn Fn(Prof, &str, &mut Local) -> Check + Sync)) {
+    let count = run.pick(4usize, 12usize);
+    run.par("inputs_of_16_64_128_mib", true, |tid, n, l| {
+        for idx in 0..count {
+            if idx % n != tid {
+                continue;
+            }
+            let s = huge_input(words, idx).unwrap();
+            for p in profs {
+                l.cases += 1;
+                if let Err(mut v) = check(*p, &s, l) {
+                    v.case = json!({"op": "huge_input", "profile": p.name(), "words": words, "index": idx, "bytes": s.len(), "note": "pipe::huge_input(words, index)"});
+                    v.expected = v.expected.chars().take(200).collect();
+                    v.observed = v.observed.chars().take(200).collect();
+                    run.violate(v);
+                    return;
+                }
+            }
+        }
+    });
+}
+
+/// the input of a replay case: either stored in the file or one of the huge inputs
+pub fn replay_input(case: &Value) -> String {
+    if case.get("op").and_then(|o| o.as_str()) == Some("huge_input") {
+        return huge_input(case["words"].as_bool().unwrap(), case["index"].as_u64().unwrap() as usize).expect("index");
+    }
+    if case.get("op").and_then(|o| o.as_str()) == Some("concurrent_distinct") {
+        // the other 15 threads are not part of the file: the same input, single-threaded
+        let unit = jget_str(case, "input_unit").expect("input_unit");
+        let bytes = case["input_bytes"].as_u64().unwrap() as usize;
+        return unit.repeat(bytes / unit.len());
+    }
+    jget_str(case, "input").expect("input")
+}
+
+/// steady-state concurrency with DISTINCT inputs: 16 threads start together; thread t calls the library over and over on its own inputs
+/// (a thread-specific word that needs a repair, repeated to ~300 B, 5 KiB, 70 KiB and 300 KiB) while the others do the same with theirs.
+/// Phase 1 (before the barrier, one thread after the other): every input through the property's full check; the answers of the
+/// implementation are kept. Phase 2: `rounds` rounds of the same calls; every answer must equal the one from phase 1.
+pub fn concurrent_distinct(run: &Run, profs: &[Prof], unit_for: &(dyn Fn(Prof, usize) -> String + Sync), check: &(dyn Fn(Prof, &str, &mut Local) -> Check + Sync)) {
+    let rounds = run.pick(100usize, 2000usize);
+    let nthreads = 16usize;
+    let sizes = [300usize, 5_000, 70_000, 300_000];
+    // phase 1
+    let mut table: Vec<Vec<(Prof, Op, String, RRes)>> = Vec::new();
+    let mut bad: Option<Violation> = None;
+    let mut l0 = Local::scratch();
+    'outer: for t in 0..nthreads {
+        let mut mine = Vec::new();
+        for p in profs {
+            let unit = unit_for(*p, t);
+            for sz in sizes {
+                let s = unit.repeat(sz / unit.len() + 1);
+                if let Err(v) = check(*p, &s, &mut l0) {
+                    bad = Some(v);
+                    break 'outer;
+                }
+                for op in [Op::Prepare, Op::Enforce] {
+                    let want = match op {
+                        Op::Prepare => imp_prepare(*p, &s),
+                        Op::Enforce => imp_enforce(*p, &s),
+                    };
+                    mine.push((*p, op, s.clone(), want));
+                }
+            }
+        }
+        table.push(mine);
+    }
+    if let Some(v) = bad {
+        run.violate(v);
+        return;
+    }
+    let table = &table;
+    let barrier = std::sync::Barrier::new(nthreads);
+    let barrier = &barrier;
+    run.par("concurrent_distinct_large_inputs", false, |tid, n, l| {
+        // the engine starts n threads; the barrier needs exactly 16
+        if n != nthreads {
+            if tid == 0 {
+                l.label("skipped:needs_16_threads");
+            }
+            return;
+        }
+        barrier.wait();
+        for r in 0..rounds {
+            if run.stopped() {
+                return;
+            }
+            for (k, (p, op, s, want)) in table[tid].iter().enumerate() {
+                // neighbours run the same size at about the same time, in a different order of profiles
+                let _ = k;
+                let got = guard(|| match op {
+                    Op::Prepare => imp_prepare(*p, s),
+                    Op::Enforce => imp_enforce(*p, s),
+                });
+                l.eval();
+                l.cases += 1;
+                let got = match got {
+                    Ok(g) => g,
+                    Err(pn) => Ok(format!("<<panic: {pn}>>")),
+                };
+                if got != *want {
+                    let show = |r: &RRes| -> String { fmt_res(r).chars().take(160).collect() };
+                    run.violate(Violation::new(
+                        json!({"op": "concurrent_distinct", "profile": p.name(), "call": op_name(*op), "thread": tid, "round": r, "input_bytes": s.len(), "input_unit": jstr(&unit_for(*p, tid)),
+                               "note": "16 threads, each repeating its own unit to ~300 B / 5 KiB / 70 KiB / 300 KiB and calling prepare and enforce on it in a loop"}),
+                        format!("{} ... ({} bytes; the answer to the same call before the threads were started)", show(want), want.as_ref().map(|x| x.len()).unwrap_or(0)),
+                        format!("{} ... ({} bytes)", show(&got), got.as_ref().map(|x| x.len()).unwrap_or(0)),
+                    ));
+                    return;
+                }
+            }
+            if r == 0 {
+                l.nt(hash64(&("concurrent_distinct", tid)));
+            }
+        }
+    });
+}
+
+/// a thread-specific word with something to repair for each profile
+pub fn concurrent_unit(p: Prof, t: usize) -> String {
+    let c = (b'a' + t as u8) as char;
+    let u = c.to_ascii_uppercase();
+    match p {
+        Prof::Nick => format!("{c}{c}{u}{c}{c}  "),
+        Prof::Opaque => format!("{c}{u}{c}\u{a0}e\u{301}"),
+        Prof::UserMapped => format!("{u}{c}\u{ff21}{c}e\u{301}"),
+        Prof::UserPreserved => format!("{u}{c}\u{ff42}{c}e\u{301}"),
+    }
+}
